@@ -1,4 +1,6 @@
 import MosnVerif.Lemmas.DownstreamProps
+import MosnVerif.Lemmas.TcpLedger
+import MosnVerif.Gen.ResourceSites
 /-!
 # C10 — circuit-breaker and active-gauge accounting is conserved (property theorems only)
 
@@ -86,5 +88,213 @@ example : ((fun (s : S) => (s.cleaned, s.retries, s.requests, s.upActive, s.down
     (reach { retryOn := true, numRetries := 1, maxRetries := 2, maxRequests := 2 } 1 0
       (List.replicate 12 .work ++ [.upReset 0 .StreamConnectionFailed] ++ List.replicate 5 .work ++ [.terminate 418] ++
         List.replicate 3 .work))) = (true, 1, 0, 0, 0) := by decide
+
+
+/-!
+## The TCP proxy (`pkg/filter/network/streamproxy`): the cluster's `Connections()` resource and the connection gauges
+
+`Model/TcpLedger.lean`: any number of downstream connections (sessions) on one cluster; labels `accept` (with the
+oracle answers of the host tries), close events of either connection of a session, data, and `ambInc` / `ambDec` (a
+connection pool of the same cluster taking / returning a slot).  The handlers are the regenerated `Gen.TcpProxy`
+(which statement moves which counter, before or after the dial, on which exit); `Increase/Decrease/CanCreate` are the
+regenerated `Gen.Resource`.  Every theorem holds for every threshold `max` (0 = unlimited) and every label list.
+-/
+end MosnVerif.Props.C10
+
+namespace MosnVerif.Props.C10
+open MosnVerif.Model.TcpLedger MosnVerif.Lemmas.TcpLedger MosnVerif.Gen.TcpProxy
+
+abbrev tcpReach (max : Nat) (l : List Label) : St := run max l
+
+/-- **exact accounting**: at every label boundary `Connections().Cur()` is what the other users hold plus the number of
+live upstream connections of the stream proxy (nothing when the resource is unlimited: it does not count then), both
+`UpstreamConnectionActive` gauges are the number of live upstream connections, the listener's connection count is the
+number of open downstream connections, and the model never left its domain -/
+theorem tcp_ledger_exact (max : Nat) (l : List Label) :
+    (tcpReach max l).stuck = false ∧
+    (tcpReach max l).g.cur = (if max = 0 then 0 else ((tcpReach max l).amb : Int) + liveCount (tcpReach max l).ss) ∧
+    (tcpReach max l).g.stats .cluster .UpstreamConnectionActive = liveCount (tcpReach max l).ss ∧
+    (tcpReach max l).g.stats .host .UpstreamConnectionActive = liveCount (tcpReach max l).ss ∧
+    (tcpReach max l).g.numConns = downCount (tcpReach max l).ss := by
+  have h : Inv (tcpReach max l) := inv_run max l
+  have hm : (tcpReach max l).max = max := run_max max l
+  refine ⟨h.ok, ?_, h.cA, h.hA, h.num⟩
+  rw [h.cur, hm]; unfold kappa; split <;> omega
+
+/-- **never negative** (never below what the others hold), and a limited resource never exceeds its limit -/
+theorem tcp_cur_nonneg (max : Nat) (l : List Label) :
+    0 ≤ (tcpReach max l).g.cur ∧ (max ≠ 0 → ((tcpReach max l).amb : Int) ≤ (tcpReach max l).g.cur) ∧
+    (max ≠ 0 → (tcpReach max l).g.cur ≤ max) ∧
+    0 ≤ (tcpReach max l).g.stats .cluster .UpstreamConnectionActive ∧
+    0 ≤ (tcpReach max l).g.stats .host .UpstreamConnectionActive ∧ 0 ≤ (tcpReach max l).g.numConns := by
+  have h : Inv (tcpReach max l) := inv_run max l
+  have hmx : (tcpReach max l).max = max := run_max max l
+  obtain ⟨_, h1, h2, h3, h4⟩ := tcp_ledger_exact max l
+  have hl := liveCount_nonneg (tcpReach max l).ss
+  have hd := downCount_nonneg (tcpReach max l).ss
+  refine ⟨h.cur_nonneg, ?_, ?_, by omega, by omega, by omega⟩
+  · intro hm; rw [h1]; simp only [hm, if_false]; omega
+  · intro hm; have := h.le (by rw [hmx]; exact hm); rw [hmx] at this; exact this
+
+/-- **idle ⇒ zero**: when every downstream connection is closed and no queued close is left to be carried out, the stream
+proxy holds nothing: the resource is back at what the others hold, all gauges are 0 -/
+theorem tcp_quiescent_zero (max : Nat) (l : List Label)
+    (idle : ∀ s ∈ (tcpReach max l).ss, s.downClosed = true ∧ s.upEof = false) :
+    (tcpReach max l).g.cur = (if max = 0 then 0 else ((tcpReach max l).amb : Int)) ∧
+    (tcpReach max l).g.stats .cluster .UpstreamConnectionActive = 0 ∧
+    (tcpReach max l).g.stats .host .UpstreamConnectionActive = 0 ∧ (tcpReach max l).g.numConns = 0 := by
+  have h : Inv (tcpReach max l) := inv_run max l
+  obtain ⟨_, h1, h2, h3, h4⟩ := tcp_ledger_exact max l
+  have hl : liveCount (tcpReach max l).ss = 0 := by
+    apply liveCount_zero
+    intro s hs
+    have hw := h.wf _ hs
+    obtain ⟨i1, i2⟩ := idle _ hs
+    clear hs idle
+    obtain ⟨a, b, c, d, e, f, g, hh, i⟩ := s
+    simp only at i1 i2; subst i1; subst i2
+    revert hw; revert a c d e f g i; decide
+  have hd : downCount (tcpReach max l).ss = 0 := by
+    apply downCount_zero
+    intro s hs
+    simp [Sess.downLive, (idle s hs).1]
+  rw [h1, h2, h3, h4, hl, hd]; simp
+
+/-- **the limit trips at the threshold**: a new downstream connection (cluster known) is refused for overflow exactly
+when the resource is limited and `cur = max`; a refused connection is closed and nothing is counted for it -/
+theorem tcp_limit_trips (max : Nat) (l : List Label) (hn : Nat) (t0 t1 t2 : Try) :
+    let st := tcpReach max l
+    let c := sstep (Gen.Resource.canCreate st.max st.g.cur) {} (.accept false hn t0 t1 t2)
+    (refused c.log = true ↔ (max ≠ 0 ∧ st.g.cur = max)) ∧
+    (refused c.log = true → c.s.live = false ∧ c.s.downClosed = true ∧
+      (step st (.sess st.ss.length (.accept false hn t0 t1 t2))).g.cur = st.g.cur) := by
+  intro st c
+  have h : Inv st := inv_run max l
+  have hmx : st.max = max := run_max max l
+  have hc : c = sstep (Gen.Resource.canCreate st.max st.g.cur) {} (.accept false (min hn 4) t0 t1 t2) :=
+    sstep_accept_min _ _ _ _ _ _ _
+  obtain ⟨g0, g1, g2, _⟩ := good_accept (Gen.Resource.canCreate st.max st.g.cur) false (min hn 4) (by omega) t0 t1 t2
+  rw [← hc] at g0 g1 g2
+  have hcan := canCreate_iff st.max st.g.cur h.cur_nonneg
+  have href : refused c.log = true ↔ (max ≠ 0 ∧ st.g.cur = max) := by
+    rw [g1]
+    cases hcc : Gen.Resource.canCreate st.max st.g.cur with
+    | true =>
+      have := hcan.1 hcc
+      rw [hmx] at this
+      simp; intro hm; rcases this with h0 | h0
+      · exact absurd h0 hm
+      · omega
+    | false =>
+      have : ¬ (st.max = 0 ∨ st.g.cur < st.max) := fun hh => by rw [hcan.2 hh] at hcc; cases hcc
+      rw [hmx] at this
+      have hle := h.le
+      rw [hmx] at hle
+      simp; constructor
+      · intro h0; exact this (Or.inl h0)
+      · have := hle (fun h0 => this (Or.inl h0)); omega
+  refine ⟨href, ?_⟩
+  intro hr
+  rw [g1] at hr
+  obtain ⟨l1, l2⟩ := g2 (by simp only [hr, Bool.true_or])
+  refine ⟨l1, l2, ?_⟩
+  rw [step_accept_new]
+  show (applyActs st.max st.g c.log).cur = st.g.cur
+  obtain ⟨_, _, _, g3, _⟩ := good_unpack g0
+  rw [applyActs_cur, g3, l1]; simp [b2i, Sess.live]
+
+/-- **a failed dial gives everything back**: a new downstream connection none of whose host tries connects (refused,
+dial timeout, no host chosen — whatever the host count, breaker answer and cluster lookup) leaves the resource, both
+gauges and the connection count exactly as they were; in particular the breaker's next answer is unchanged -/
+theorem tcp_failed_dial_restores (max : Nat) (l : List Label) (nc : Bool) (hn : Nat) (t0 t1 t2 : Try)
+    (h0 : t0 ≠ .ok) (h1 : t1 ≠ .ok) (h2 : t2 ≠ .ok) :
+    let st := tcpReach max l
+    let st' := step st (.sess st.ss.length (.accept nc hn t0 t1 t2))
+    st'.g.cur = st.g.cur ∧
+    st'.g.stats .cluster .UpstreamConnectionActive = st.g.stats .cluster .UpstreamConnectionActive ∧
+    st'.g.stats .host .UpstreamConnectionActive = st.g.stats .host .UpstreamConnectionActive ∧
+    st'.g.numConns = st.g.numConns ∧
+    Gen.Resource.canCreate st'.max st'.g.cur = Gen.Resource.canCreate st.max st.g.cur := by
+  intro st st'
+  have hst' : st' = _ := step_accept_new st nc hn t0 t1 t2
+  generalize hc : sstep (Gen.Resource.canCreate st.max st.g.cur) {} (.accept nc hn t0 t1 t2) = c at hst'
+  have hc' : c = sstep (Gen.Resource.canCreate st.max st.g.cur) {} (.accept nc (min hn 4) t0 t1 t2) := by
+    rw [← hc]; exact sstep_accept_min _ _ _ _ _ _ _
+  obtain ⟨g0, _, g2, _⟩ := good_accept (Gen.Resource.canCreate st.max st.g.cur) nc (min hn 4) (by omega) t0 t1 t2
+  rw [← hc'] at g0 g2
+  obtain ⟨l1, l2⟩ := g2 (by simp [h0, h1, h2])
+  obtain ⟨_, _, _, g3, g4, g5, g6, _⟩ := good_unpack g0
+  have e1 : st'.g.cur = st.g.cur := by
+    rw [hst']; show (applyActs st.max st.g c.log).cur = st.g.cur
+    rw [applyActs_cur, g3, l1]; simp [b2i, Sess.live]
+  refine ⟨e1, ?_, ?_, ?_, ?_⟩
+  · rw [hst']; show (applyActs st.max st.g c.log).stats _ _ = _
+    rw [applyActs_stat, g4, l1]; simp [b2i, Sess.live]
+  · rw [hst']; show (applyActs st.max st.g c.log).stats _ _ = _
+    rw [applyActs_stat, g5, l1]; simp [b2i, Sess.live]
+  · rw [hst']; show (applyActs st.max st.g c.log).numConns = _
+    have : c.s.downLive = false := by simp [Sess.downLive, l2]
+    rw [applyActs_num, g6, this]; simp [b2i, Sess.downLive]
+  · rw [e1]; rw [hst']
+
+-- non-vacuity
+/-- two sessions on a cluster limited to one connection: the first holds the slot, the second is refused … -/
+example : (fun (st : St) => (st.g.cur, st.g.numConns, st.ss.map Sess.live))
+    (tcpReach 1 [.sess 0 (.accept false 2 .fail .ok .none), .sess 1 (.accept false 2 .ok .none .none)]) =
+    (1, 1, [true, false]) := by decide
+/-- … after the first session's client went away and the queued close was carried out the slot is free again … -/
+example : (fun (st : St) => (st.g.cur, st.g.numConns, st.g.stats .cluster .UpstreamConnectionActive))
+    (tcpReach 1 [.sess 0 (.accept false 2 .fail .ok .none), .sess 0 (.down .remote), .sess 0 (.up .local)]) = (0, 0, 0) := by decide
+/-- … a session whose three host tries are refused counts nothing (with the increment moved before the dial this is 1) -/
+example : (tcpReach 1 [.sess 0 (.accept false 3 .fail .fail .fail)]).g.cur = 0 := by decide
+/-- … and the next session is admitted -/
+example : (fun (st : St) => (st.g.cur, st.ss.map Sess.live))
+    (tcpReach 1 [.sess 0 (.accept false 3 .fail .fail .fail), .sess 1 (.accept false 3 .ok .none .none)]) = (1, [false, true]) := by decide
+/-- the hypotheses of `tcp_quiescent_zero` are met by a finished session -/
+example : ∀ s ∈ (tcpReach 2 [.sess 0 (.accept false 1 .ok .none .none), .sess 0 (.up .remote), .sess 0 (.down .local)]).ss,
+    s.downClosed = true ∧ s.upEof = false := by decide
+/-- a pool of the same cluster holding the only slot makes the stream proxy refuse -/
+example : refused (sstep (Gen.Resource.canCreate (tcpReach 1 [.ambInc]).max (tcpReach 1 [.ambInc]).g.cur) {}
+    (.accept false 1 .ok .none .none)).log = true := by decide
+
+
+/-!
+## Who moves which breaker resource (regenerated table of every `ResourceManager().<Res>().<Op>()` call under pkg/)
+
+The ledgers above are complete only if nothing else moves the counters.  `Gen.ResourceSites` lists every call site; the
+theorems below are re-decided against the regenerated table on every run, so a new `Increase()` in a pool, a second user
+of `Connections()`, or a resource handed to code outside the table stops the check.
+-/
+open MosnVerif.Gen.ResourceSites in
+/-- `Connections()` is moved by the stream proxy only, in the two regenerated functions of `Gen.TcpProxy` (the connection
+pools only read its `Max()` as a per-pool limit, against their own books: C09) -/
+theorem breaker_sites_connections :
+    (sites.filter fun s => s.res == .Connections && (s.op == .Increase || s.op == .Decrease || s.op == .CanCreate || s.op == .UpdateCur)) =
+      [⟨"pkg/filter/network/streamproxy/streamproxy.go", "proxy.finalizeUpstreamConnectionStats", .Connections, .Decrease⟩,
+       ⟨"pkg/filter/network/streamproxy/streamproxy.go", "proxy.initializeUpstreamConnection", .Connections, .CanCreate⟩,
+       ⟨"pkg/filter/network/streamproxy/streamproxy.go", "proxy.initializeUpstreamConnection", .Connections, .Increase⟩] := by
+  decide
+
+open MosnVerif.Gen.ResourceSites in
+/-- `PendingRequests()` is never moved, asked or read: its counter is constantly 0 (never negative, zero when idle); the
+configured `max_pending_requests` is never consulted -/
+theorem breaker_sites_pending : (sites.filter fun s => s.res == .PendingRequests) = [] := by
+  decide
+
+open MosnVerif.Gen.ResourceSites in
+/-- `Requests()` is moved by the five connection pools only (each pairs an `Increase` in NewStream with a `Decrease` on
+stream destroy: the ledger of C09 / `ledger_exact`), `Retries()` by `retryState` only (`retry` / `reset`: `ledger_exact`);
+no counter is ever set directly (`UpdateCur`), and the only code that takes a resource manager as a whole is the handler
+that copies the thresholds of an updated cluster -/
+theorem breaker_sites_table :
+    ((sites.filter fun s => s.res == .Requests && (s.op == .Increase || s.op == .Decrease)).map (·.file)).eraseDups =
+      ["pkg/stream/http/connpool.go", "pkg/stream/http2/connpool.go", "pkg/stream/xprotocol/connpool_binding.go",
+       "pkg/stream/xprotocol/connpool_multiplex.go", "pkg/stream/xprotocol/connpool_pingpong.go"] ∧
+    ((sites.filter fun s => s.res == .Retries).map fun s => (s.fn, s.op)) =
+      [("retryState.reset", .Decrease), ("retryState.retry", .Increase), ("retryState.shouldRetry", .CanCreate)] ∧
+    (sites.filter fun s => s.op == .UpdateCur) = [] ∧
+    escapes = ["pkg/upstream/cluster/cluster_manager.go:UpdateClusterResourceManagerHandler: newSnap.ClusterInfo().ResourceManager()",
+               "pkg/upstream/cluster/cluster_manager.go:UpdateClusterResourceManagerHandler: oldSnap.ClusterInfo().ResourceManager()"] := by
+  decide
 
 end MosnVerif.Props.C10
